@@ -262,6 +262,13 @@ func Dump() {
 	if path == "" {
 		return
 	}
+	for _, a := range os.Args {
+		if strings.HasPrefix(a, "-test.fuzzworker") {
+			// native fuzzing runs the target in worker processes: one dump per worker
+			path += fmt.Sprintf(".w%d", os.Getpid())
+			break
+		}
+	}
 	mu.Lock()
 	defer mu.Unlock()
 	var out []dumpRec
